@@ -33,6 +33,16 @@ var c05Bound = map[string]c05Val{
 	"nilv":    {nil, false},
 	"missing": {nil, false},
 }
+// props bound to an expression that is not a path into the data: literals, negation, comparison
+var c05Exprs = map[string]struct {
+	Src string
+	V   any
+}{
+	"lit0": {"0", 0}, "litfalse": {"false", false}, "litempty": {"''", ""}, "lit7": {"7", 7}, "littrue": {"true", true}, "litstr": {"'s'", "s"},
+	"notT": {"!boolT", false}, "notF": {"!boolF", true}, "cmpF": {"int7>9", false}, "cmpT": {"int7>3", true}, "sum": {"int7 + 1", 8},
+}
+var c05ExprNames = []string{"lit0", "litfalse", "litempty", "lit7", "littrue", "litstr", "notT", "notF", "cmpF", "cmpT", "sum"}
+
 var c05BoundNames = []string{"int7", "float", "str", "boolT", "slice", "map", "zero", "boolF", "empty", "nilv", "missing"}
 
 type c05Case struct {
@@ -95,6 +105,8 @@ func (c *c05Case) files() (Files, map[string]any) {
 			p = append(p, `a="sa"`)
 		case "interp":
 			p = append(p, `a="x{{ o }}y"`)
+		case "expr":
+			p = append(p, `:a="`+c05Exprs[name].Src+`"`)
 		case "bound":
 			p = append(p, `:a="`+name+`"`)
 		case "vbind":
@@ -174,6 +186,8 @@ func (c *c05Case) wantA(aForm string) (val any, provided, defined bool) {
 		val, provided = "sa", true
 	case "interp":
 		val, provided = "xOUTy", true
+	case "expr":
+		val, provided = c05Exprs[name].V, true
 	case "bound", "vbind":
 		bv := c05Bound[name]
 		val, provided, defined = bv.V, true, bv.Defined
@@ -200,6 +214,8 @@ func c05Class(aForm string) string {
 	case "":
 		return kind
 	case "zero", "boolF", "empty":
+		return kind + ":falsy-" + name
+	case "lit0", "litfalse", "litempty", "notT", "cmpF":
 		return kind + ":falsy-" + name
 	case "nilv", "missing":
 		return kind + ":" + name
@@ -392,7 +408,7 @@ func init() {
 	core.Register(&core.Check{
 		ID:    "C05",
 		Level: "exploration",
-		Rule: "every combination of prop a {omitted, static, interpolated, :bound / v-bind: to 11 values of every JSON-like type incl. 0/false/\"\"/nil/undefined} x prop b {omitted, static, bound} x includer defines a / not x component front-matter defines a / defines it as null / not x :required {none, a, 'a, b', repeated, :require} x shape {single, twice with different props, inside v-for, nested include, include carrying v-if, include carrying v-else, include inside the slot content of the include} - the inner includes of the nested and slot shapes in shorthand form too - x {explicit include, registered shorthand}; " +
+		Rule: "every combination of prop a {omitted, static, interpolated, :bound / v-bind: to 11 values of every JSON-like type incl. 0/false/\"\"/nil/undefined, bound to 11 expressions that are not data paths (literals 0 / false / '' / 7 / true / 's', negations, comparisons, a sum)} x prop b {omitted, static, bound} x includer defines a / not x component front-matter defines a / defines it as null / not x :required {none, a, 'a, b', repeated, :require} x shape {single, twice with different props, inside v-for, nested include, include carrying v-if, include carrying v-else, include inside the slot content of the include} - the inner includes of the nested and slot shapes in shorthand form too - x {explicit include, registered shorthand}; " +
 			"oracle: reference scope model for the values and types printed inside, the includer's following siblings, error iff a required name was not provided, shorthand byte-identical. non-trivial = all",
 		Bounds:      map[string]string{"quick": "full product (include depth <= 2, fan-out <= 2)", "thorough": "same product"},
 		Assumptions: []string{"a required name that is visible from the includer's scope or the component's front-matter although the include does not pass it, and bindings of nil/undefined values, are unconstrained"},
@@ -403,6 +419,9 @@ func init() {
 				aForms = append(aForms, "bound:"+n)
 			}
 			aForms = append(aForms, "vbind:int7", "vbind:zero", "vbind:str")
+			for _, n := range c05ExprNames {
+				aForms = append(aForms, "expr:"+n)
+			}
 			for _, shape := range []string{"inforsame", "inforself"} {
 				for _, short := range []bool{false, true} {
 					for _, b := range []string{"omit", "static", "bound"} {
